@@ -277,7 +277,7 @@ func RunWorker(id string, p Params, shard, of, from, only int, out string) int {
 		return 2
 	}
 	wits := Witnesses(id)
-	n := ck.Plan(p)
+	n := planCapped(ck, p)
 	total := len(wits) + n
 	res := newResult()
 	f, err := os.Create(out + ".inflight")
@@ -337,6 +337,17 @@ func RunWorker(id string, p Params, shard, of, from, only int, out string) int {
 	}()
 	flush()
 	return code
+}
+
+// planCapped: development aid — VERIF_MAXCASES caps the number of generated cases.
+func planCapped(ck *Check, p Params) int {
+	n := ck.Plan(p)
+	if s := os.Getenv("VERIF_MAXCASES"); s != "" {
+		if v, err := strconv.Atoi(s); err == nil && v >= 0 && v < n {
+			return v
+		}
+	}
+	return n
 }
 
 // ---------------------------------------------------------------------------------------------
@@ -491,7 +502,7 @@ func Orchestrate(id string, p Params) int {
 	os.RemoveAll(work)
 	os.MkdirAll(work, 0o755)
 	wits := Witnesses(id)
-	total := len(wits) + ck.Plan(p)
+	total := len(wits) + planCapped(ck, p)
 	nw := runtime.NumCPU()
 	if ck.Workers != nil {
 		if v := ck.Workers(p); v > 0 {
@@ -891,3 +902,6 @@ func Replay(id, path string) int {
 }
 
 var _ = bytes.Equal
+
+// Res exposes the result record of the running worker (for bulk coverage updates).
+func (c *Ctx) Res() *Result { return c.res }
